@@ -68,6 +68,12 @@ impl From<DispositionError> for RecvError {
 #[verifier::external_body]
 pub struct Bytes { v: Vec<u8> }
 impl View for Bytes { type V = Seq<u8>; uninterp spec fn view(&self) -> Seq<u8>; }
+impl Bytes {
+    #[verifier::external_body]
+    pub fn is_empty(&self) -> (r: bool) ensures r == (self@.len() == 0) { unimplemented!() }
+    #[verifier::external_body]
+    pub fn len(&self) -> (r: usize) ensures r == self@.len() { unimplemented!() }
+}
 pub type Payload = Bytes;
 
 /// concatenation of the buffered frame payloads, in arrival order
